@@ -222,8 +222,44 @@ pub fn raw_body() -> BoxedStrategy<String> {
         ],
         0..4,
     )
-    .prop_map(|v| v.concat())
+    .prop_map(|v| close_quotes_in_lookalikes(v.concat()))
     .boxed()
+}
+
+/// Known finding C03/raw-quote (known_findings.json): the lexer runs over the whole file before any
+/// block looks at its body, so a quote inside tag-like text of a raw body (`{% raw %}{% if x'{% endraw %}`)
+/// starts a string literal that swallows `{% endraw %}` when a matching quote and a delimiter end
+/// follow anywhere later in the file.  That trigger is excluded from the general generator by
+/// construction (the unterminated quote becomes the letter q) and enumerated on its own in
+/// C03 `raw_quote_across_endraw`, where it is judged against the known-findings list.
+pub fn close_quotes_in_lookalikes(body: String) -> String {
+    let mut b: Vec<char> = body.chars().collect();
+    let mut i = 0;
+    while i + 1 < b.len() {
+        if b[i] == '{' && (b[i + 1] == '%' || b[i + 1] == '{') {
+            // inside tag-like text: walk to its delimiter end, string literals are opaque
+            let mut j = i + 2;
+            while j < b.len() {
+                if b[j] == '\'' || b[j] == '"' {
+                    match (j + 1..b.len()).find(|k| b[*k] == b[j]) {
+                        Some(k) => j = k + 1,
+                        None => {
+                            b[j] = 'q';
+                            j += 1;
+                        }
+                    }
+                } else if j + 1 < b.len() && (b[j] == '%' || b[j] == '}') && b[j + 1] == '}' {
+                    break;
+                } else {
+                    j += 1;
+                }
+            }
+            i = j;
+        } else {
+            i += 1;
+        }
+    }
+    b.into_iter().collect()
 }
 
 pub const COMMENT_BODIES: &[&str] = &[
